@@ -149,7 +149,7 @@ def main():
         ],
         'checks': [],
         'not_applicable': [],
-        'notes': 'All twenty properties are claimed. Known findings (genuine defects recorded rather than repaired) are in known_findings.json; 19 defects were repaired by fix: commits in /repo.',
+        'notes': 'All twenty properties are claimed. Known findings (genuine defects recorded rather than repaired) are in known_findings.json; 20 defects were repaired by fix: commits in /repo.',
     }
     for pid in sorted(CHECKS):
         c = CHECKS[pid]
